@@ -1011,7 +1011,9 @@ func (a *zzfApp) ExecuteTransaction(req *labi.ExecuteTransactionRequest) (*labi.
 	if a.execute[i] == 2 {
 		return nil, zzErrABI
 	}
-	return &labi.ExecuteTransactionResponse{Result: a.execute[i]}, nil
+	// the application hands back the events it logged together with the verdict — also for a transaction it
+	// judges Invalid (the framework returns its event logger's content in every case)
+	return &labi.ExecuteTransactionResponse{Result: a.execute[i], Events: []*blockchain.Event{zzfEvent("tx", req.Transaction.Params[0])}}, nil
 }
 func (a *zzfApp) AfterTransactionsExecute(req *labi.AfterTransactionsExecuteRequest) (*labi.AfterTransactionsExecuteResponse, error) {
 	res := &labi.AfterTransactionsExecuteResponse{Events: []*blockchain.Event{zzfEvent("after", zzfTxKeys(req.Transactions)...)}}
